@@ -25,6 +25,19 @@ char nondet_char();
 unsigned short nondet_ushort();
 short nondet_short();
 }
+/* every symbolic input is also recorded, in program order, in a ghost log so that a
+   counterexample trace can be replayed natively (tools/replay.py) */
+#define VH_LOGN 96
+extern "C" { long long g_nd_log[VH_LOGN]; unsigned g_nd_n; }
+static inline long long vh_rec(long long v) { if (g_nd_n < VH_LOGN) { g_nd_log[g_nd_n] = v; } g_nd_n++; return v; }
+#define nondet_int() ((int)vh_rec((long long)(nondet_int)()))
+#define nondet_uint() ((unsigned)vh_rec((long long)(nondet_uint)()))
+#define nondet_ll() ((long long)vh_rec((long long)(nondet_ll)()))
+#define nondet_ull() ((unsigned long long)vh_rec((long long)(nondet_ull)()))
+#define nondet_uchar() ((unsigned char)vh_rec((long long)(nondet_uchar)()))
+#define nondet_char() ((char)vh_rec((long long)(nondet_char)()))
+#define nondet_ushort() ((unsigned short)vh_rec((long long)(nondet_ushort)()))
+#define nondet_short() ((short)vh_rec((long long)(nondet_short)()))
 #define ASSUME(c) __CPROVER_assume(c)
 #define OBL(c, name) __CPROVER_assert((c), name)
 #define CANARY(name) __CPROVER_assert(0, "canary: " name)
